@@ -497,12 +497,15 @@ fn new_client(interval_ms: u64, timeout_ms: u64) -> Arc<Client> {
     ))
 }
 
-fn open_class(r: &anytls_rs::util::Result<(Arc<Stream>, Arc<Session>)>) -> String {
+fn open_class(r: &anytls_rs::util::Result<(Arc<Stream>, Arc<Session>)>, raw: bool) -> String {
     match r {
         Ok(_) => "ok".to_string(),
         Err(e) => {
             let m = e.to_string();
-            if let Some(p) = m.rfind("Server error: ") {
+            if raw && m.contains("Server error: ") {
+                // the reason is not valid UTF-8 text: the library keeps a lossy copy, only the class is compared
+                "srv.raw".to_string()
+            } else if let Some(p) = m.rfind("Server error: ") {
                 format!("srv.{:08x}", fnv(m[p + "Server error: ".len()..].as_bytes()))
             } else if m.contains("Session closed") {
                 "closed".to_string()
@@ -545,15 +548,21 @@ async fn run_c10(args: &[&str]) -> String {
         Err(_) => return "NO-SESSION".to_string(),
     };
     let pool = client.verif_session_pool();
+    let raw_sids: Vec<u32> = evs
+        .iter()
+        .filter(|(_, e)| e[0] == "ack" && e.len() > 3 && e[3] == "r")
+        .map(|(_, e)| e[1].parse().unwrap())
+        .collect();
     let mut handles = Vec::new();
-    for _ in 0..n {
+    for i in 0..n {
+        let raw = raw_sids.contains(&((i + 1) as u32));
         if pool.idle_count().await == 0 {
             pool.add_idle_session(sess.clone()).await;
         }
         let c = client.clone();
         let h = tokio::spawn(async move {
             let r = c.create_proxy_stream(("example.com".to_string(), 80)).await;
-            (open_class(&r), Instant::now(), r.ok())
+            (open_class(&r, raw), Instant::now(), r.ok())
         });
         for _ in 0..64 {
             tokio::task::yield_now().await;
@@ -633,9 +642,13 @@ fn real_rt() -> tokio::runtime::Runtime {
 }
 
 /// in-process server: authenticates, runs a server session with the library's TcpProxyHandler
-fn loop_connector(servers: Arc<Mutex<Vec<Arc<Session>>>>) -> anytls_rs::client::VerifConnector {
+fn loop_connector(
+    servers: Arc<Mutex<Vec<Arc<Session>>>>,
+    c2s: Arc<Mutex<Vec<WHandle>>>,
+) -> anytls_rs::client::VerifConnector {
     Arc::new(move || {
         let (c2s_w, _h1, c2s_r, _tx1) = transport::pipe();
+        c2s.lock().unwrap().push(_h1.clone());
         let (s2c_w, _h2, s2c_r, _tx2) = transport::pipe();
         let servers = servers.clone();
         tokio::spawn(async move {
@@ -703,10 +716,18 @@ async fn run_lo(args: &[&str]) -> String {
 
     let servers: Arc<Mutex<Vec<Arc<Session>>>> = Arc::new(Mutex::new(Vec::new()));
     let client = new_client(3_600_000, 7_200_000);
-    client.verif_set_connector(Some(loop_connector(servers.clone())));
+    let c2s: Arc<Mutex<Vec<WHandle>>> = Arc::new(Mutex::new(Vec::new()));
+    client.verif_set_connector(Some(loop_connector(servers.clone(), c2s.clone())));
 
-    // target
-    let target = TcpListener::bind("127.0.0.1:0").await.unwrap();
+    // target (for the slow-target scenario: a small receive buffer, so that the upload piles up in the server)
+    let target = if scenario == "slow_target" {
+        let sock = tokio::net::TcpSocket::new_v4().unwrap();
+        let _ = sock.set_recv_buffer_size(4096);
+        sock.bind("127.0.0.1:0".parse().unwrap()).unwrap();
+        sock.listen(16).unwrap()
+    } else {
+        TcpListener::bind("127.0.0.1:0").await.unwrap()
+    };
     let mut tport = target.local_addr().unwrap().port();
     let mut target = Some(target);
     if scenario == "refuse" {
@@ -832,6 +853,54 @@ async fn run_lo(args: &[&str]) -> String {
             let _ = tconn.write_all(&back).await;
             let (rev, _) = read_some(&mut app, Some(m), ms(5000)).await;
             out.push(format!("rev={}", sum_tok(&rev)));
+        }
+        "slow_target" => {
+            // the application uploads n bytes and half-closes; the target does not read; once everything has left
+            // the client session the client session is closed; only m ms later the target starts reading
+            let data = genb('c', 1, 0, n);
+            app.write_all(&data).await.unwrap();
+            let _ = app.shutdown().await;
+            let deadline = Instant::now() + ms(60_000);
+            loop {
+                let total = c2s.lock().unwrap().first().map(|h| h.total()).unwrap_or(0);
+                if total >= n || Instant::now() > deadline {
+                    break;
+                }
+                tokio::time::sleep(ms(10)).await;
+            }
+            let pool = client.verif_session_pool();
+            let closed = match pool.get_idle_session().await {
+                Some(s) => {
+                    let _ = s.close().await;
+                    1
+                }
+                None => 0,
+            };
+            out.push(format!("closed={}", closed));
+            tokio::time::sleep(ms(m as u64)).await;
+            let _ = tconn.shutdown().await;
+            let mut h: u32 = 0x811c9dc5;
+            let mut cnt = 0usize;
+            let mut eof = 0;
+            let mut buf = vec![0u8; 65536];
+            loop {
+                match tokio::time::timeout(watch, tconn.read(&mut buf)).await {
+                    Err(_) => break,
+                    Ok(Ok(0)) | Ok(Err(_)) => {
+                        eof = 1;
+                        break;
+                    }
+                    Ok(Ok(k)) => {
+                        cnt += k;
+                        for x in &buf[..k] {
+                            h ^= *x as u32;
+                            h = h.wrapping_mul(0x01000193);
+                        }
+                    }
+                }
+            }
+            out.push(format!("fwd={}.{:08x}", cnt, h));
+            out.push(format!("eof={}", eof));
         }
         "tgt_eof" => {
             // target -> application: n bytes, then the target half-closes
